@@ -240,7 +240,7 @@ def instantiate(q, K):
     return out
 
 
-def refute_bounded(o, timeout_ms, K=132):
+def refute_bounded(o, timeout_ms, K=132, bound_lengths=True, want='model'):
     """search a counter-model with the quantified hypotheses replaced by their instances at
     0..K-1 (complete for index domains below K, partial beyond) and the negated goal skolemised
     by z3.  Returns model dict or None."""
@@ -251,9 +251,10 @@ def refute_bounded(o, timeout_ms, K=132):
     # soundness of the instantiation: every byte-string length is kept below K/4, so that every
     # index into a concatenation of up to four of them is among the instantiated ones
     L = K // 4 - 1
-    for c in _int_consts(list(o.pc) + [o.goal]):
-        if c.decl().name().endswith('.len'):
-            s.add(c <= L)
+    if bound_lengths:
+        for c in _int_consts(list(o.pc) + [o.goal]):
+            if c.decl().name().endswith('.len'):
+                s.add(c <= L)
     for q in qs:
         inst = instantiate(q, K)
         if inst is None:
@@ -261,7 +262,10 @@ def refute_bounded(o, timeout_ms, K=132):
         s.add(*inst)
     ng = Not(o.goal)
     s.add(ng)
+    s.set('smt.mbqi', False)
     r = guarded_check(s, timeout_ms)
+    if want == 'verdict':
+        return r
     if r == z3.sat:
         return model_dict(s.model())
     return None
@@ -307,6 +311,20 @@ def discharge(o, timeout_ms=QUICK_TIMEOUT_MS, second_opinion=False):
     s = z3.Solver()
     exhausted = _SLOW['n'] > SLOW_BUDGET
     s.set('timeout', 400 if exhausted else min(timeout_ms, 2500))
+    if os.environ.get('PYVC_MBQI', '0') != '1':
+        # stage 1 proves by E-matching only: model-based quantifier instantiation is what makes z3
+        # run away (and ignore its timeout) on satisfiable queries; counter-models come from the
+        # bounded-instantiation stage instead
+        s.set('smt.mbqi', False)
+    if 'canary' in o.tags:
+        # vacuity guard: are the assumptions of this path contradictory?  Decided on the quantifier-
+        # free part plus ground instances of the quantified hypotheses (sound for 'contradictory';
+        # never runs model-based instantiation, which is where z3 can run away on satisfiable input)
+        r = refute_bounded(o, 3000, K=24, bound_lengths=False, want='verdict')
+        o.verdict = 'proved' if r == z3.unsat else 'refuted'
+        o.model, o.backend = {}, 'z3-%s (ground instances)' % z3.get_version_string()
+        o.ms = (time.time() - t0) * 1000
+        return o
     s.add(*o.pc)
     s.add(*literal_facts())
     s.add(Not(g))
@@ -335,6 +353,7 @@ def discharge(o, timeout_ms=QUICK_TIMEOUT_MS, second_opinion=False):
             o.ms = (time.time() - t0) * 1000
             return o
         s.set('timeout', timeout_ms)
+        s.set('smt.mbqi', True)
         r = guarded_check(s, timeout_ms)
     if r == z3.unsat:
         o.verdict = 'proved'
